@@ -452,8 +452,10 @@ func (w *vfWorld) config(reg string, opts string) *Config {
 	for name, op := range w.ops {
 		conf.OperatorMap[name] = op
 	}
-	for i, o := range vfOptimizations {
-		conf.CompileOptions[o] = i < len(opts) && opts[i] == '1'
+	if opts != "dflt" { // "dflt": the four switches are left unset (the library's defaults apply: all on)
+		for i, o := range vfOptimizations {
+			conf.CompileOptions[o] = i < len(opts) && opts[i] == '1'
+		}
 	}
 	return conf
 }
